@@ -24,6 +24,8 @@ func checkC15(w *World, r *Report, tier string) propMeta {
 	c15R4(w, r, "C15.R4")
 	c14R3(w, r, "C15.R5")
 	c15R5(w, r)
+	c13R1(w, r)     // the merge output is referenced only after footer-ok and Close-ok
+	c13R2R3R4(w, r) // sources removed only after the one Update-ok; outputs removed only on failure paths before it
 	return propMeta{
 		explanation: "The publish protocol of FileSystemDataStore as path rules: (R1) in renameOnCloseFile.Close the rename follows Sync-ok then Close-ok of the temp file, and `published = true` / `return nil` follow Rename-ok then syncDir-ok of the final path's directory; syncDir reports a failed fsync; (R2) both creates in CreateFile are O_CREATE|O_EXCL, the reservation of the final .dat path precedes the temp create, and every failure after the reservation removes it before returning or redrawing; (R3) the directory scan yields only .dat entries whose footer parsed (readFileMetadata-ok), and the temp suffix differs from the scanned one; (R4) TombstoneFile removes the final path on every path and the derived temp path whenever the pointer ends in .dat; Abort removes both unless published; (R5) commit atomicity and durability of Update — known findings F1 (writes ignored) and F2 (removals not followed by a directory fsync, their errors dropped).",
 		notDecided:  "The crash-point enumeration itself (needs a filesystem hook and execution — outside this family); what a real filesystem persists between fsyncs.",
